@@ -62,18 +62,30 @@ class Undecidable(Exception):
 
 
 class Trace(tuple):
-    """ordered event sequence (trace mode); `|` appends"""
+    """ordered event sequence (trace mode); `|` appends.  A subclass may set `keep` (predicate on one event) to record
+    only the events a rule needs, which lets the explorer merge paths that differ in irrelevant events."""
     __slots__ = ()
+    keep = None
 
     def __or__(self, other):
+        cls = type(self)
         if isinstance(other, Trace):
-            return Trace(tuple(self) + tuple(other))
+            return cls(tuple(self) + tuple(other))
         if not other:
             return self
-        return Trace(tuple(self) + tuple(sorted(other, key=repr)))
+        items = sorted(other, key=repr)
+        if cls.keep is not None:
+            items = [e for e in items if cls.keep(e)]
+            if not items:
+                return self
+        return cls(tuple(self) + tuple(items))
 
     def __ror__(self, other):
-        return Trace(tuple(sorted(other, key=repr)) + tuple(self))
+        cls = type(self)
+        items = sorted(other, key=repr)
+        if cls.keep is not None:
+            items = [e for e in items if cls.keep(e)]
+        return cls(tuple(items) + tuple(self))
 
 
 def norm_tag(t):
@@ -348,7 +360,7 @@ Outcome.__new__.__defaults__ = ((),)
 
 class Explorer:
     def __init__(self, facts, inline_depth=3, budget=200000, no_inline=(), force_domain=None,
-                 observe=(), models=None, loop_visits=2, inline_only=None, watch=(), model_hook=None, time_budget=60.0, trace=False, tag_named=False, const_params=None, force_type=None, observe_types=(), inline_pred=None):
+                 observe=(), models=None, loop_visits=2, inline_only=None, watch=(), model_hook=None, time_budget=60.0, trace=False, tag_named=False, const_params=None, force_type=None, observe_types=(), inline_pred=None, try_tags=False, keep=None, kill_dead=False):
         self.facts = facts
         self.inline_depth = inline_depth
         self.budget = budget
@@ -367,6 +379,9 @@ class Explorer:
         self.force_type = force_type or {}
         self.observe_types = tuple(observe_types)
         self.inline_pred = inline_pred
+        self.try_tags = try_tags
+        self.trace_cls = type('FilteredTrace', (Trace,), {'keep': staticmethod(keep), '__slots__': ()}) if keep is not None else Trace
+        self.kill_dead = kill_dead
         import time as _t
         self.deadline = _t.time() + time_budget
         self.memo = {}
@@ -421,6 +436,10 @@ class Explorer:
         a, b = strip(a), strip(b)
         if isinstance(a, I) and isinstance(b, I):
             x, y = a.n, b.n
+            if op in ('AddWithOverflow', 'SubWithOverflow', 'MulWithOverflow'):
+                # checked arithmetic yields (value, overflowed); constants in the analysed tables are far from the type bounds
+                r = x + y if op[0] == 'A' else x - y if op[0] == 'S' else x * y
+                return T((I(r), I(0)))
             try:
                 return I({
                     'Eq': lambda: int(x == y), 'Ne': lambda: int(x != y), 'Lt': lambda: int(x < y),
@@ -598,6 +617,9 @@ class Explorer:
                     return A(cf, 1, 'Break', ((0, A(v.adt, v.vi, v.name, v.fields)),))
                 if v.name == 'None':
                     return A(cf, 1, 'Break', ((0, v),))
+            if self.trace and self.try_tags and isinstance(v, U) and v.tag and not v.ch:
+                # keep the origin of the tried value: Continue payload becomes 'try:<tag>.0'
+                return sym('try:' + v.tag)
             return TOP
         if deff == 'core::ops::try_trait::FromResidual::from_residual':
             v = strip(args[0])
@@ -641,7 +663,7 @@ class Explorer:
         results = {}
         seen = set()
         # state: (bb, stmt_idx, env(dict), events(frozenset), dsrc(dict), visits(dict))
-        stack = [(0, 0, env0, Trace() if self.trace else frozenset(), {}, {})]
+        stack = [(0, 0, env0, self.trace_cls() if self.trace else frozenset(), {}, {})]
         while stack:
             bb, si, env, events, dsrc, visits = stack.pop()
             self.steps += 1
@@ -671,6 +693,9 @@ class Explorer:
             for idx in range(si, len(stmts)):
                 st = stmts[idx]
                 if st[0] != '=':
+                    if self.kill_dead and st[0] == 'dead':
+                        env.pop(st[1], None)
+                        dsrc.pop(st[1], None)
                     continue
                 (loc, projs), rv = st[1], st[2]
                 val = self.rvalue(env, rv, depth, dsrc, loc if not projs else None)
